@@ -155,14 +155,14 @@ def k_hist(ctx, seqs, bins, normalize, pseudocount, metric=None, seqs2=None, con
                       {"n_pairs": len(dists)})
     if metric and not metric.startswith("obj:"):
         ctx.count("recording_metric_calls", len(log))
-        want = "pdist" if seqs2 is None else "cdist"
-        if len(log) != 1 or log[0][0] != want:
-            ctx.violation(f"pcDelta:{mode}:metric-usage", "the metric object was not asked for exactly one pdist/cdist of the inputs",
-                          [e[0] for e in log], [want])
-        else:
+        # how the metric object is consulted is an implementation choice: the log is only used when it is unambiguous
+        if len(log) == 1 and log[0][0] == ("pdist" if seqs2 is None else "cdist"):
             given = [str(v) for v in list(log[0][1])]
+            ctx.count("metric_input_observed")
             if collections.Counter(given) != collections.Counter(seqs):
                 ctx.violation(f"pcDelta:{mode}:metric-input", "metric was handed a different collection", given[:20], seqs[:20])
+        else:
+            ctx.count("metric_usage_other_pattern")
     # count at distance 0 when a bin isolates 0 and distances are integral
     if not normalize and seqs2 is None and fname == "lev" and len(edges) >= 2 and edges[0] == 0 and 0 < edges[1] <= 1 and out.ok:
         cnt = collections.Counter(seqs)
@@ -295,14 +295,14 @@ def k_maxseqs(ctx, seqs, maxseqs, seqs2=None, table=False, np_seed=0):
     if not out.ok:
         ctx.violation(key + ":raised", "pcDelta(maxseqs=) raised", out.describe(), None)
         return
-    if len(log) != 1:
-        ctx.violation(key + ":metric-usage", "metric not called exactly once", [e[0] for e in log], 1)
-        return
-    measured = list(log[0][1:])
     originals = [seqs] + ([seqs2] if seqs2 is not None else [])
     origobjs = [a] + ([b] if b is not None else [])
-    if len(measured) != len(originals):
-        ctx.violation(key + ":metric-usage", "wrong number of collections handed to the metric", len(measured), len(originals))
+    measured = list(log[0][1:]) if len(log) == 1 else None
+    if measured is not None and seqs2 is None and len(measured) == 2:
+        measured = measured[:1]                      # a one-collection result computed through cdist(x, x)
+    if measured is None or len(measured) != len(originals):
+        # the sub-sample cannot be observed through this metric-usage pattern: only the size of the result is checked below
+        ctx.count("maxseqs_subsample_unobservable")
         return
     sub = []
     for coll, orig, oobj in zip(measured, originals, origobjs):
